@@ -198,6 +198,19 @@ def check_c03(case, obs):
             ds = T.done_step.get(i["eid"])
             if ds is not None and (d["acked_step"] is None or ds < d["acked_step"]):
                 out.append(("C03", "C03/emit-early/plain", "emit %d completed in step %d, its consumer finished in step %s" % (i["eid"], ds, d["acked_step"])))
+    # pass-through nodes that hand on SEVERAL elements for one arrival (flatten: the items of a list; zip_latest: one tuple
+    # per held element of the lossless input when the other input delivers its first value): the emit completes only
+    # when the consumers of ALL of them have finished
+    if k in ("flatten", "zip_latest") and not T.sync and not any(a is not None and a[0] == "mix" for a in T.steps):
+        for i in T.inputs:
+            ds_ = [d for d in T.deliv if d["step"] == i["step"]]
+            done = T.done_step.get(i["eid"])
+            if done is not None:
+                late = [d["val"] for d in ds_ if not d.get("failed") and (d["acked_step"] is None or d["acked_step"] > done)]
+                if late:
+                    out.append(("C03", "C03/emit-early/%s" % k, "emit %d (%r) completed in step %d although the consumers of %r, handed on for it, had not finished"
+                                % (i["eid"], i["val"], done, late[:4])))
+                    break
     # rate_limit only spaces elements out: it is not a buffering node, so an emit through it completes only when the
     # consumer behind it has finished that element (i-th arrival = i-th delivery)
     if k == "rate_limit" and not T.sync:
